@@ -100,10 +100,10 @@ class Sc:
 
         if is_async(self.flavor):
             async def trace(name, info):
-                _trace(ph, name)
+                _trace(ph, name, info, self)
         else:
             def trace(name, info):
-                _trace(ph, name)
+                _trace(ph, name, info, self)
         ext = {"trace": trace}
         if self.timeouts:
             ext["timeout"] = dict(self.timeouts)
@@ -112,7 +112,12 @@ class Sc:
         return ext
 
 
-def _trace(ph, name):
+def _trace(ph, name, info=None, sc=None):
+    if name == "http2.send_request_headers.started" and sc is not None:
+        # the moment the client opens an HTTP/2 stream (before the HEADERS reach the wire): on which transports had it
+        # already been handed a GOAWAY?
+        seen = [oc.tr.id for o in sc.origins for oc in o.conns if oc.h2 is not None and oc.h2.goaway_consumed()]
+        ph.setdefault("h2_open", []).append({"stream": (info or {}).get("stream_id"), "goaway_consumed_on": seen})
     base, _, what = name.rpartition(".")
     if what == "started":
         ph["cur"] = base
